@@ -9,12 +9,17 @@ LEVEL = 'proof'
 MANIFEST = dict(
     text='Coq: (a) the ledger collateral rule as a boolean spec collateral_ok (1..max distinct key-locked inputs, '
          '100*(sum - return) >= percent*fee, = total_collateral when declared, return carries every token and its min ADA); '
-         '(b) clause-by-clause model of TransactionBuilder._set_collateral_return/_should_add_collateral_return; '
+         '(b) clause-by-clause model of TransactionBuilder._set_collateral_return/_should_add_collateral_return, incl. its gate '
+         '(all_scripts/scripts dict semantics over the builder\'s five script tables and _reference_scripts, witness-set classes); '
          '(c) theorems for ALL candidate lists/values/parameters: whenever the model finishes without error on a Plutus '
          'transaction with a return address, collateral_ok holds for every fee <= max_tx_fee + fee_buffer; chosen inputs are '
-         'distinct, key-locked, > 2 ADA, from the permitted pools, at most max_collateral_inputs; otherwise an explicit error. '
+         'distinct, key-locked, > 2 ADA, from the permitted pools, at most max_collateral_inputs; otherwise an explicit error; '
+         'the gate opens whenever a Plutus script is executed for any purpose however supplied (gate_complete) and only for a '
+         'Plutus or reference script (gate_sound). '
          'Tie: exact correspondence of every recorded call of the real method (slice calls and calls inside build()) with the '
-         'model, and collateral_ok evaluated in Coq on the CBOR body returned by build().',
+         'model (script tables read from the builder, cross-checked against what the scenario put in), and collateral_ok '
+         'evaluated in Coq on the CBOR body returned by build(), its premise "runs Plutus scripts" decided in Coq from the '
+         'redeemers of the witness set CBOR.',
     note='Trusted: Coq kernel+vm_compute; hand model Collateral.v tied by correspondence; max_tx_fee taken as datum from utils '
          '(C07); UTxO map functional; evaluate_tx answers within max_tx_ex_*; generator/driver. No axioms.',
     technique='Coq proof (induction over the candidate loop, Value content algebra) + slice and end-to-end correspondence',
@@ -24,6 +29,7 @@ TRUSTED = [
     'hand model coq/theories/Collateral.v of txbuilder._set_collateral_return/_should_add_collateral_return/'
     'utils.min_lovelace_post_alonzo (return output), tied by exact correspondence on every recorded call',
     'max_tx_fee(context, ref_script_size) is taken from the implementation as a datum (utils.fee belongs to C07)',
+    'script hashes and classes in the recorded script tables are read from the builder\'s objects (script_hash is not recomputed in Coq)',
     'tools/impl/collateral_driver.py (wrapper recording the state read/written by the method), tools/props/c13.py',
 ]
 ASSUMPTIONS = [
@@ -117,30 +123,86 @@ def rand_pp(rng):
     return pp
 
 
-def rand_trigger(rng, slice_mode):
-    r = rng.random()
-    eu = None
-    if rng.random() < 0.3:
-        eu = [rng.choice([0, 1000, 400000, 5000000]), rng.choice([0, 1000, 170000000, 4000000000])]
-    if r < 0.45:
-        t = {'kind': 'wit', 'script': {'kind': rng.choice(['v1', 'v2', 'v3']), 'bytes': SCRIPT_BYTES.hex()}}
-    elif r < 0.62:
-        n = rng.choice([15, 15, 120, 400])
-        t = {'kind': 'ref', 'script': {'kind': rng.choice(['v2', 'v3']), 'bytes': (SCRIPT_BYTES * (n // 15 + 1))[:n].hex()}}
-    elif r < 0.78:
-        t = {'kind': 'mint', 'script': {'kind': rng.choice(['v1', 'v2', 'v3']), 'bytes': SCRIPT_BYTES.hex()},
-             'qty': rng.choice([1, 5])}
-    elif not slice_mode:
-        t = {'kind': 'wit', 'script': {'kind': 'v2', 'bytes': SCRIPT_BYTES.hex()}}
-    elif r < 0.85:
-        t = {'kind': 'ref_native', 'script': {'kind': 'native', 'bytes': '33' * 28}}
-    elif r < 0.93:
-        t = {'kind': 'native_wit', 'script': {'kind': 'native', 'bytes': '33' * 28}}
-    else:
-        t = {'kind': 'none'}
-    if eu and t['kind'] in ('wit', 'ref', 'mint'):
-        t['eu'] = eu
+SPEND_KINDS = ('wit', 'native_wit', 'ref', 'ref_native', 'addr', 'self', 'self_native')
+PLUTUS_KINDS = ('wit', 'ref', 'addr', 'self', 'mint', 'mint_ref', 'wdrl', 'wdrl_ref', 'cert', 'cert_ref')
+
+
+def purpose_of(kind):
+    return 'spend' if kind in SPEND_KINDS else kind.split('_')[0]
+
+
+def uses_ref_utxo(t):
+    """the script is taken from a reference UTxO other than the spent one (it lands in _reference_scripts)"""
+    return t['kind'] in ('ref', 'ref_native', 'addr') or t['kind'].endswith('_ref')
+
+
+def plutus_script(rng, variant=0, kinds=('v1', 'v2', 'v3'), sizes=(15,)):
+    n = rng.choice(sizes)
+    body = (SCRIPT_BYTES * (n // 15 + 1))[:n]
+    if variant:
+        body = body[:-1] + bytes([body[-1] ^ variant])
+    return {'kind': rng.choice(kinds), 'bytes': body.hex()}
+
+
+def rand_trigger(rng, slice_mode, variant=0, avoid=None, shared=None):
+    """one script use: purpose (spend / mint / withdrawal / certificate) x how the script is supplied
+    (script object in the witness set / separate reference UTxO / reference UTxO discovered at the script address /
+    the spent UTxO's own output.script) x script class (Plutus V1-V3 / native)."""
+    ps = lambda **kw: dict(shared) if shared and rng.random() < 0.5 else plutus_script(rng, variant, **kw)
+    for _ in range(20):
+        r = rng.random()
+        if r < 0.20:
+            t = {'kind': 'wit', 'script': ps()}
+        elif r < 0.31:
+            t = {'kind': 'ref', 'script': ps(kinds=('v2', 'v3'), sizes=(15, 15, 120, 400))}
+        elif r < 0.38:
+            t = {'kind': 'addr', 'script': ps(kinds=('v2', 'v3'), sizes=(15, 120))}
+        elif r < 0.56:
+            t = {'kind': 'self', 'script': ps(sizes=(15, 15, 120, 400)), 'via': rng.choice(['none', 'none', 'script', 'refutxo'])}
+        elif r < 0.64:
+            t = {'kind': 'mint', 'script': ps(), 'qty': rng.choice([1, 5])}
+        elif r < 0.70:
+            t = {'kind': 'mint_ref', 'script': ps(kinds=('v2', 'v3')), 'qty': rng.choice([1, 5])}
+        elif r < 0.75:
+            t = {'kind': 'wdrl', 'script': ps(), 'amount': rng.choice([0, 0, 1500000])}
+        elif r < 0.79:
+            t = {'kind': 'wdrl_ref', 'script': ps(kinds=('v2', 'v3')), 'amount': rng.choice([0, 0, 1500000])}
+        elif r < 0.83:
+            t = {'kind': 'cert', 'script': ps()}
+        elif r < 0.86:
+            t = {'kind': 'cert_ref', 'script': ps(kinds=('v2', 'v3'))}
+        elif not slice_mode:
+            t = {'kind': rng.choice(['wit', 'self']), 'script': ps(), 'via': 'none'}
+        elif r < 0.90:
+            t = {'kind': 'ref_native', 'script': {'kind': 'native', 'bytes': '33' * 28}}
+        elif r < 0.94:
+            t = {'kind': 'native_wit', 'script': {'kind': 'native', 'bytes': '33' * 28}}
+        elif r < 0.97:
+            t = {'kind': 'self_native', 'script': {'kind': 'native', 'bytes': '33' * 28}, 'via': 'none'}
+        else:
+            t = {'kind': 'none'}
+        p = purpose_of(t['kind'])
+        if avoid is None or (t['kind'] != 'none' and (p == 'spend' or p not in avoid)):
+            break
+    if rng.random() < 0.3 and t['kind'] in PLUTUS_KINDS and avoid is None:
+        t['eu'] = [rng.choice([0, 1000, 400000, 5000000]), rng.choice([0, 1000, 170000000, 4000000000])]
     return t
+
+
+def rand_triggers(rng, slice_mode):
+    """primary trigger + (sometimes) a second script use of another purpose or another spend; the second one uses the
+    SAME script as the first half of the time (e.g. spent through a reference UTxO and minted with the script object)"""
+    trig = rand_trigger(rng, slice_mode)
+    extra = []
+    if trig['kind'] != 'none' and rng.random() < 0.22:
+        shared = trig['script'] if trig['script']['kind'] != 'native' else None
+        e = rand_trigger(rng, slice_mode, variant=1, avoid={purpose_of(trig['kind'])}, shared=shared)
+        extra.append(e)
+    return trig, extra
+
+
+def triggers(sc):
+    return [sc['trigger']] + list(sc.get('extra', []))
 
 
 def boundary_coin(rng, A, cpb):
@@ -167,35 +229,67 @@ class UGen:
         return len(self.utxos) - 1
 
 
+def script_size(sd):
+    return len(bytes.fromhex(sd['bytes'])) if sd['kind'] != 'native' else 32
+
+
 def add_trigger_utxos(rng, g, trig, wallet):
-    """script UTxO (and reference UTxO) that the trigger needs; returns reference-script size"""
+    """script UTxO (and reference UTxO) that the trigger needs; returns the reference-script size it adds"""
     ref_size = 0
-    if trig['kind'] in ('wit', 'native_wit', 'ref', 'ref_native'):
+    k = trig['kind']
+    if k == 'none':
+        return 0
+    if k in SPEND_KINDS:
         sh = script_hash(trig['script'])
         saddr = mk_addr(rng.choice([1, 3, 5, 7]), sh, rng)
         dh = None if trig['script']['kind'] == 'native' else rng.choice(['hash', 'inline'])
+        own = k in ('self', 'self_native')
         trig['utxo'] = g.add(saddr, rng.choice([2500000, 5000000, 20000000]), rand_assets(rng) if rng.random() < 0.2 else [],
-                             dh=dh, pa=(dh == 'inline'))
+                             dh=dh, pa=(dh == 'inline') or own, script=trig['script'] if own else None)
         trig['saddr'] = saddr.hex()
-        if trig['kind'] in ('ref', 'ref_native'):
+        if own:
+            ref_size += script_size(trig['script'])
+    if uses_ref_utxo(trig) or trig.get('via') == 'refutxo':
+        if k == 'addr':
+            holder = bytes.fromhex(trig['saddr'])              # found by context.utxos(script address)
+        else:
             holder = rng.choice([wallet, mk_addr(6, bytes([0x77]) * 28, rng)])
-            trig['ref'] = g.add(holder, rng.choice([3000000, 30000000, 300000000]), [], pa=True, script=trig['script'])
-            nb = len(bytes.fromhex(trig['script']['bytes']))
-            ref_size = nb if trig['script']['kind'] != 'native' else 32
+        trig['ref'] = g.add(holder, rng.choice([3000000, 30000000, 300000000]), [], pa=True, script=trig['script'])
+        if uses_ref_utxo(trig):
+            ref_size += script_size(trig['script'])
     return ref_size
+
+
+def trigger_indices(sc_trigs):
+    out = set()
+    for t in sc_trigs:
+        out.update(x for x in (t.get('utxo'), t.get('ref')) if x is not None)
+    return out
+
+
+def carrier_script(rng, trigs):
+    """script attached to ORDINARY wallet UTxOs of the scenario (they may become inputs / collateral):
+    the script of a trigger (so the witness set and an input hold the same script) or an unrelated one"""
+    if rng.random() >= 0.3:
+        return None
+    with_script = [t['script'] for t in trigs if t.get('script')]
+    if with_script and rng.random() < 0.7:
+        return dict(rng.choice(with_script))
+    return plutus_script(rng, variant=2)
 
 
 def gen_slice(rng):
     pp = rand_pp(rng)
     fee_buffer = rng.choice([None, None, None, 0, 1000, 500000, 5000000])
     threshold = rng.choice([None, None, None, 0, 1000000, 1500000, 3000000, 10000000])
-    trig = rand_trigger(rng, True)
+    trig, extra = rand_triggers(rng, True)
     wtype = rng.choice([0, 6, 6, 2, 4])
     wallet = mk_addr(wtype, bytes([0x11]) * 28, rng)
     other = mk_addr(rng.choice([0, 6]), bytes([0x22]) * 28, rng)
     foreign_script = mk_addr(rng.choice([1, 3, 5, 7]), bytes([0x99]) * 28, rng)
     g = UGen(rng)
-    ref_size = add_trigger_utxos(rng, g, trig, wallet)
+    ref_size = sum(add_trigger_utxos(rng, g, t, wallet) for t in [trig] + extra)
+    carrier = carrier_script(rng, [trig] + extra)
     cpb = pp.get('coins_per_utxo_byte', 4310)
     A = approx_amount(pp, fee_buffer, ref_size)
     r = rng.random()
@@ -206,10 +300,12 @@ def gen_slice(rng):
         a = rng.random()
         addr = wallet if a < 0.6 else (other if a < 0.75 else foreign_script)
         coin = rng.choice([2000001, 2100000, 2500000, A // 2 + 1, A // 3 + 1, 3000000]) if small else boundary_coin(rng, A, cpb)
+        cs = carrier if carrier and rng.random() < 0.4 else None
         g.add(addr, coin, rand_assets(rng), dh=rng.choice([None] * 6 + ['hash', 'inline']) if addr == foreign_script else None,
-              pa=rng.random() < 0.3)
-    free = [i for i in range(len(g.utxos)) if i not in (trig.get('utxo'), trig.get('ref'))]
-    sc = {'mode': 'slice', 'pp': pp, 'fee_buffer': fee_buffer, 'threshold': threshold, 'trigger': trig,
+              pa=rng.random() < 0.3 or bool(cs), script=cs)
+    taken = trigger_indices([trig] + extra)
+    free = [i for i in range(len(g.utxos)) if i not in taken]
+    sc = {'mode': 'slice', 'pp': pp, 'fee_buffer': fee_buffer, 'threshold': threshold, 'trigger': trig, 'extra': extra,
           'utxos': g.utxos, 'ret_addr': ret_addr.hex() if ret_addr else None,
           'inputs': [i for i in free if rng.random() < 0.4],
           'potential': [i for i in free if rng.random() < 0.3],
@@ -229,31 +325,35 @@ def gen_build(rng):
         pp['collateral_percent'] = 200
     fee_buffer = rng.choice([None, None, None, 0, 1000, 500000, 5000000])
     threshold = rng.choice([None, None, None, 0, 1500000, 3000000])
-    trig = rand_trigger(rng, False)
+    trig, extra = rand_triggers(rng, False)
     wallet = mk_addr(rng.choice([0, 6, 6, 2, 4]), bytes([0x11]) * 28, rng)
     other = mk_addr(rng.choice([0, 6]), bytes([0x22]) * 28, rng)
     g = UGen(rng)
-    ref_size = add_trigger_utxos(rng, g, trig, wallet)
+    ref_size = sum(add_trigger_utxos(rng, g, t, wallet) for t in [trig] + extra)
+    carrier = carrier_script(rng, [trig] + extra)
     cpb = pp.get('coins_per_utxo_byte', 4310)
     A = approx_amount(pp, fee_buffer, ref_size)
     small = rng.random() < 0.3
     n = rng.choice([1, 2, 3, 4, 6, 8])
     for _ in range(n):
         coin = rng.choice([2000001, 2100000, 2500000, A // 2 + 1, A // 3 + 1, 3000000]) if small else boundary_coin(rng, A, cpb)
-        g.add(wallet if rng.random() < 0.85 else other, coin, rand_assets(rng), pa=rng.random() < 0.3)
+        cs = carrier if carrier and rng.random() < 0.4 else None
+        g.add(wallet if rng.random() < 0.85 else other, coin, rand_assets(rng), pa=rng.random() < 0.3 or bool(cs), script=cs)
     # money to pay for outputs and fee
     for _ in range(rng.choice([0, 1, 1, 2])):
         g.add(wallet, rng.choice([15000000, 40000000, 1000000000]), rand_assets(rng) if rng.random() < 0.3 else [])
-    free = [i for i in range(len(g.utxos)) if i not in (trig.get('utxo'), trig.get('ref'))]
-    wallet_idx = [i for i in free if g.utxos[i]['addr'] == wallet.hex()]
-    sc = {'mode': 'build', 'pp': pp, 'fee_buffer': fee_buffer, 'threshold': threshold, 'trigger': trig,
+    taken = trigger_indices([trig] + extra)
+    free = [i for i in range(len(g.utxos)) if i not in taken]
+    sc = {'mode': 'build', 'pp': pp, 'fee_buffer': fee_buffer, 'threshold': threshold, 'trigger': trig, 'extra': extra,
           'utxos': g.utxos, 'change': wallet.hex(), 'coll_change': None,
           'inputs': [i for i in free if rng.random() < 0.3], 'potential': [i for i in free if rng.random() < 0.2],
           'input_addresses': [wallet.hex()] if rng.random() < 0.8 else [],
           'collaterals': [], 'outputs': [], 'merge_change': rng.random() < 0.15,
           'ex_units': [rng.choice([0, 1000, 400000, 2000000, 4000000]), rng.choice([0, 1000, 170000000, 2000000000, 4000000000])]}
-    if trig['kind'] == 'ref' and trig['ref'] in wallet_idx and rng.random() < 0.7:
-        sc['excluded'] = [trig['ref']]
+    # reference UTxOs that sit at the wallet address: usually kept out of coin selection (else they may also be spent)
+    at_wallet = [t['ref'] for t in [trig] + extra if t.get('ref') is not None and g.utxos[t['ref']]['addr'] == wallet.hex()]
+    if at_wallet and rng.random() < 0.7:
+        sc['excluded'] = at_wallet
     for _ in range(rng.choice([0, 1, 1, 2])):
         sc['outputs'].append({'addr': rng.choice([wallet, other]).hex(), 'coin': rng.choice([1500000, 3000000, 10000000]), 'assets': []})
     r = rng.random()
@@ -300,6 +400,32 @@ def corpus():
     # the pinned-tree double count: 2.5 ADA UTxO both an input and at the change address
     us = [U(1, w, 2500000), U(2, w, 2500000), U(3, w, 20000000), U(9, saddr, 5000000, dh='hash')]
     out.append(dict(base, utxos=us, trigger={'kind': 'wit', 'script': v2, 'utxo': 3}, inputs=[0], name='double-count'))
+    # ---- every way a Plutus script can reach the transaction must open the collateral gate (added when the check was
+    # strengthened: the earlier generator supplied scripts only as witness objects or on a separate reference UTxO)
+    wal = [U(1, w, 6000000), U(2, w, 7000000), U(3, w, 40000000)]
+    for j, kind in enumerate(('v1', 'v2', 'v3')):
+        sd = {'kind': kind, 'bytes': SCRIPT_BYTES.hex()}
+        sa = mk_addr(7, script_hash(sd), R())
+        # (iv) the spent UTxO carries its own script; nothing / the script object / an unrelated reference UTxO passed on top
+        us = wal + [U(9, sa, 10000000, dh='inline', pa=True, script=sd), U(8, other, 20000000, pa=True, script=sd)]
+        out.append(dict(base, utxos=us, trigger={'kind': 'self', 'script': sd, 'utxo': 3, 'ref': 4,
+                                                 'via': ('none', 'script', 'refutxo')[j]}, name='script-on-spent-utxo-' + kind))
+    sa = mk_addr(7, script_hash(v2), R())
+    # (v) script argument omitted: the reference UTxO is discovered at the script address
+    us = wal + [U(9, sa, 10000000, dh='inline', pa=True), U(8, sa, 20000000, dh='inline', pa=True, script=v2)]
+    out.append(dict(base, utxos=us, trigger={'kind': 'addr', 'script': v2, 'utxo': 3, 'ref': 4}, name='script-found-at-address'))
+    # (vi) script object in the witness set while an ordinary spent input carries the same script
+    us = wal + [U(9, sa, 10000000, dh='hash'), U(4, w, 9000000, pa=True, script=v2)]
+    out.append(dict(base, utxos=us, trigger={'kind': 'wit', 'script': v2, 'utxo': 3}, inputs=[4], name='witness-script-also-on-input'))
+    # (vii) other purposes: withdrawal with the script object, certificate / mint through a reference UTxO,
+    # and the same script spent through a reference UTxO and minted with the script object (popped from the witness set)
+    out.append(dict(base, utxos=wal, trigger={'kind': 'wdrl', 'script': v2, 'amount': 0}, name='withdrawal-script'))
+    us = wal + [U(8, other, 20000000, pa=True, script=v2)]
+    out.append(dict(base, utxos=us, trigger={'kind': 'cert_ref', 'script': v2, 'ref': 3}, name='certificate-reference-script'))
+    out.append(dict(base, utxos=us, trigger={'kind': 'mint_ref', 'script': v2, 'ref': 3, 'qty': 1}, name='mint-reference-script'))
+    us = wal + [U(9, sa, 10000000, dh='inline', pa=True), U(8, other, 20000000, pa=True, script=v2)]
+    out.append(dict(base, utxos=us, trigger={'kind': 'ref', 'script': v2, 'utxo': 3, 'ref': 4},
+                    extra=[{'kind': 'mint', 'script': v2, 'qty': 1}], name='same-script-by-reference-and-object'))
     return out
 
 
@@ -331,12 +457,21 @@ EXC = {'amount': 3, 'minlovelace': 4, 'count': 1, 'script': 2}
 
 
 def plutus_flag(sc):
-    """what the model needs: Plutus script in the witness set or a reference script in use"""
-    return sc['trigger']['kind'] in ('wit', 'ref', 'ref_native', 'mint')
+    """the scenario's own statement of what was put into the builder: a Plutus script is executed for some purpose,
+    or a script is taken from a reference UTxO (the gate of the method also opens for native reference scripts)"""
+    return any(t['kind'] in PLUTUS_KINDS or uses_ref_utxo(t) for t in triggers(sc))
 
 
 def runs_plutus(sc):
-    return sc['trigger']['kind'] in ('wit', 'ref', 'mint')
+    return any(t['kind'] in PLUTUS_KINDS for t in triggers(sc))
+
+
+SKIND = {'native': 'SNative', 'v1': 'SV1', 'v2': 'SV2', 'v3': 'SV3'}
+
+
+def r_ss(ss):
+    tab = lambda l: C.clist([f'(mkS (hx "{h}") {SKIND[k]})' for h, k in l])
+    return '(mkSS ' + ' '.join(tab(ss[n]) for n in ('native', 'inputs', 'mint', 'wdrl', 'cert', 'refs')) + ')'
 
 
 def r_call(sc, k, utab):
@@ -345,7 +480,7 @@ def r_call(sc, k, utab):
     P = (f'(mkCP {C.cz(k["max_fee"])} {C.cz(k["fee_buffer"] or 0)} {C.cz(k["percent"])} {C.cz(k["max_inputs"])} '
          f'{C.cz(k["threshold"])})')
     colls = C.clist([f'idof u{i}' for i in k['collaterals']])
-    return (f'(mkCall {C.cbool(plutus_flag(sc))} {C.copt(None if k["addr"] is None else "(hx " + chr(34) + k["addr"] + chr(34) + ")")} '
+    return (f'(mkCall {C.cbool(plutus_flag(sc))} {r_ss(k["ss"])} {C.copt(None if k["addr"] is None else "(hx " + chr(34) + k["addr"] + chr(34) + ")")} '
             f'{P} {C.cz(k["cpb"])} {us(k["explicit"])} {us(k["inputs"])} {us(k["potential"])} {us(k["at_addr"])} '
             f'{r_iret(k["pre_return"])} {C.copt(None if k["pre_total"] is None else C.cz(k["pre_total"]))} '
             f'{colls} {r_iret(k["ret"])} {C.copt(None if k["total"] is None else C.cz(k["total"]))} {C.cn(exc)})')
@@ -366,7 +501,7 @@ def r_scen(i, sc, res):
         um = C.clist([f'(idof u{known[(t, ix, o)]}, snd u{known[(t, ix, o)]})' if (t, ix, o) in known
                       else C.cpair(C.cpair(f'hx "{t}"', C.cn(ix)), hxl(o)) for t, ix, o in res['umap']])
         b = (f'(Some (mkBuild (mkLP {C.cz(pc)} {C.cz(mx)} {C.cz(cpb)}) {um} {hxl(res["body"])} '
-             f'{C.cbool(runs_plutus(sc))} {C.cbool(sc.get("change") is not None)}))')
+             f'{C.cbool(runs_plutus(sc))} {C.cbool(sc.get("change") is not None)} {hxl(res["wits"])}))')
     else:
         b = 'None'
     return f'({i}%nat, ({lets}({calls}, {b})))'
@@ -388,7 +523,7 @@ def render(cases, results):
     return body
 
 
-def evaluate(cases, results, shard=60):
+def evaluate(cases, results, shard=40):
     """returns (mismatch idx set, {idx: [failed clauses of the per-call oracle]}, {idx: [.. of the body oracle]}, errors)"""
     mism, cfail, bfail, errs = set(), {}, {}, []
     good = []
@@ -438,7 +573,7 @@ def make_cases(ctx, n_slice, n_build):
 
 
 def correspond(ctx, n=None):
-    n_slice, n_build = n or (ctx.n(420, 14000), ctx.n(160, 5000))
+    n_slice, n_build = n or (ctx.n(350, 14000), ctx.n(130, 5000))
     cases = make_cases(ctx, n_slice, n_build)
     results = C.run_impl('collateral_driver', {'cases': cases}, nshards=C.NPROC)
     mism, cfail, bfail, errs = evaluate(cases, results)
@@ -446,13 +581,26 @@ def correspond(ctx, n=None):
         raise RuntimeError('cases file failed to compile: ' + errs[0])
     hist = {'mode': {}, 'trigger': {}, 'outcome': {}, 'n_collateral': {}, 'explicit': 0, 'body_with_return': 0,
             'build_exc': {}, 'calls': 0, 'auto_phase_reach': {'inputs': 0, 'potential': 0, 'address': 0},
-            'candidate_address_types': {}, 'chosen_address_types': {}, 'chosen_with_tokens': 0}
+            'candidate_address_types': {}, 'chosen_address_types': {}, 'chosen_with_tokens': 0,
+            'script_use': {}, 'second_script_use': {}, 'self_via': {}, 'script_on_ordinary_utxo': 0, 'gate': {}}
     def bump(d, k):
         d[k] = d.get(k, 0) + 1
     for c, r in zip(cases, results):
         if 'driver_error' in r:
             bump(hist['outcome'], 'driver_error'); continue
         bump(hist['mode'], c['mode']); bump(hist['trigger'], c['trigger']['kind'])
+        for t in triggers(c):
+            bump(hist['script_use'], c['mode'] + ':' + t['kind'])
+            if t['kind'] == 'self':
+                bump(hist['self_via'], t.get('via', 'none'))
+        for t in c.get('extra', []):
+            bump(hist['second_script_use'], t['kind'] + ('(same script)' if t.get('script') == c['trigger'].get('script') else ''))
+        tk = trigger_indices(triggers(c))
+        hist['script_on_ordinary_utxo'] += any(u.get('script') for j, u in enumerate(c['utxos']) if j not in tk)
+        for k in r['calls'][:1]:
+            ss = k['ss']
+            in_tabs = any(kd != 'native' for n in ('inputs', 'mint', 'wdrl', 'cert') for _, kd in ss[n])
+            bump(hist['gate'], ('plutus' if in_tabs else 'no-plutus') + ('+refs' if ss['refs'] else ''))
         hist['explicit'] += bool(c.get('collaterals'))
         hist['calls'] += len(r['calls'])
         for k in r['calls'][:1]:
@@ -490,16 +638,20 @@ def correspond(ctx, n=None):
             oracle_fail.append(f)
     return dict(
         evaluations=len(cases), distinct_nontrivial=distinct,
-        rule='corpus of the 6 defect witnesses + slice scenarios (real builder prepared with 0-10 UTxOs at wallet/other/script '
+        rule='corpus of the 6 defect witnesses and 10 script-supply witnesses + slice scenarios (real builder prepared with 0-10 UTxOs at wallet/other/script '
              'addresses of every header type 0-7, amounts from a boundary set around collateral_amount, 2 ADA, the threshold and '
              'min ADA, tokens, overlapping inputs / potential inputs / address UTxOs, explicit collaterals incl. duplicates and '
-             'script addresses, percent/max inputs/cpb/threshold/fee_buffer settings, script via witness V1-V3 / reference / '
-             'mint / native / none; _set_collateral_return called directly) + build scenarios (full Plutus build(), evaluate_tx '
+             'script addresses, percent/max inputs/cpb/threshold/fee_buffer settings; script use = purpose (spend / mint / '
+             'withdrawal / certificate) x supply (script object / separate reference UTxO / reference UTxO discovered at the '
+             'script address / the spent UTxO\'s own output.script, with nothing, the object or another UTxO passed on top) x class '
+             '(Plutus V1-V3, native) or none, optionally a second script use with the same or another script, ordinary UTxOs '
+             'carrying scripts; _set_collateral_return called directly) + build scenarios (full Plutus build(), evaluate_tx '
              'served from the scenario); non-trivial = a recorded call got past both early returns; distinct by hash',
         samples=[cases[len(corpus())], cases[-1]],
         histogram=hist,
-        compared='per recorded call: collaterals (ordered), _collateral_return (address, raw amount, CBOR), _total_collateral, '
-                 'exception class — exactly; candidates\' length/kind/amount re-derived from output bytes in Coq; '
+        compared='per recorded call: gate decision from the recorded script tables = the scenario\'s statement; collaterals '
+                 '(ordered), _collateral_return (address, raw amount, CBOR), _total_collateral, exception class — exactly; '
+                 'witness-set redeemers non-empty = scenario executes a Plutus script; candidates\' length/kind/amount re-derived from output bytes in Coq; '
                  'oracle: collateral_ok on each completed call (req = percent*(max_tx_fee+fee_buffer)) and on the returned body CBOR',
         known_region_hits=known_hits,
         mismatches=[{'input': cases[i], 'impl': {k: v for k, v in results[i].items() if k not in ('utab', 'umap')},
